@@ -125,8 +125,15 @@ func runC01(c *run.Ctx) {
 				raiseDepth = true
 			}
 			var sels []model.Sel = []model.Sel{&model.Field{Name: "hello"}, &model.Field{Name: "__typename"}}
+			link := "selfReq"
+			if i%64 == 23 {
+				// the chain runs through a LIST of objects at every level (a typed Go slice under reflection)
+				link = "selfList"
+				depth = 30 + r.Intn(17)
+				c.Bucket("doc_features", "deep-chain-through-lists")
+			}
 			for d := 0; d < depth; d++ {
-				sels = []model.Sel{&model.Field{Name: "selfReq", Sels: sels}, &model.Field{Alias: "k", Name: "hello"}}
+				sels = []model.Sel{&model.Field{Name: link, Sels: sels}, &model.Field{Alias: "k", Name: "hello"}}
 			}
 			ec.DC = &gen.DocCase{Doc: &model.Doc{Ops: []*model.Op{{Kind: "query", Name: "Deep", Sels: sels}}}, Vars: map[string]interface{}{}, Feats: map[string]bool{"nested": true, "deep-chain": true, "alias": true, "__typename": true}, OpName: "Deep"}
 			ec.Text = ec.DC.Doc.Print(model.LayoutN(ec.Layout))
